@@ -412,7 +412,7 @@ impl<'a> Walk<'a> {
                         None
                     }
                 });
-                for entry in Self::sorted_entries(path, rd) {
+                for entry in self.sorted_entries(path, rd) {
                     let gitignore = gitignore.clone();
                     scope.spawn(move |s| {
                         self.visit_entry(entry, dev, s, level + 1, gitignore, state)
@@ -439,6 +439,7 @@ impl<'a> Walk<'a> {
     /// Because each worker's queue is a LIFO, the files would be picked up first and the
     /// dirs would be on the other side, amenable for stealing by other workers.
     fn sorted_entries(
+        &self,
         parent: Path,
         rd: impl Iterator<Item = DirEntry>,
     ) -> impl Iterator<Item = Entry> {
@@ -451,7 +452,20 @@ impl<'a> Walk<'a> {
         Self::sort_dir_entries_by_inode(&mut entries);
         entries
             .into_iter()
-            .filter_map(|e| Entry::from_dir_entry(&path, e).ok())
+            .filter_map(|e| {
+                // The type of an entry may require an extra lstat call on some file systems.
+                // An entry that fails it is skipped, but not silently.
+                let entry_path = e.path();
+                Entry::from_dir_entry(&path, e)
+                    .map_err(|err| {
+                        self.log_warn(format!(
+                            "Failed to read metadata of {}: {}",
+                            entry_path.display(),
+                            err
+                        ))
+                    })
+                    .ok()
+            })
             .for_each(|e| match e.tpe {
                 EntryType::File => files.push(e),
                 EntryType::SymLink => links.push(e),
